@@ -469,6 +469,107 @@ func brun(args []string) error {
 	}
 	cw.Flush()
 	cf.Close()
+	// databases that are not what the converter expects: tables or columns missing, values of the wrong kind, rows that
+	// point nowhere, type names that do not resolve, files that are not databases at all, a database cut short
+	{
+		root := filepath.Join(*dir, "ament")
+		if _, err := os.Stat(root); err != nil {
+			if err := writeAmentTree(root); err != nil {
+				return err
+			}
+		}
+		os.Setenv("VERIF_AMENT_ROOT", root)
+		mk := func(stmts ...string) []byte {
+			p := filepath.Join(*dir, "hostile.db3")
+			os.Remove(p)
+			db, err := sql.Open("sqlite3", p)
+			if err != nil {
+				return nil
+			}
+			for _, st := range stmts {
+				db.Exec(st)
+			}
+			db.Close()
+			b, _ := os.ReadFile(p)
+			os.Remove(p)
+			return b
+		}
+		topics := `create table topics(id integer primary key, name text not null, type text not null, serialization_format text not null, offered_qos_profiles text)`
+		msgs := `create table messages(id integer primary key, topic_id integer not null, timestamp integer not null, data blob not null)`
+		t1 := `insert into topics values(1,'/t','pkg_a/msg/Simple','cdr','')`
+		m1 := `insert into messages(topic_id,timestamp,data) values(1,5,x'0102')`
+		good := mk(topics, msgs, t1, m1)
+		dbs := map[string][]byte{
+			"empty-file":            {},
+			"not-a-database":        []byte("this is not an SQLite file, not even close ....................................."),
+			"no-tables":             mk(`create table other(x)`),
+			"no-messages-table":     mk(topics, t1),
+			"no-topics-table":       mk(msgs, m1),
+			"topics-few-columns":    mk(`create table topics(id integer primary key, name text)`, msgs, `insert into topics values(1,'/t')`, m1),
+			"messages-few-columns":  mk(topics, `create table messages(id integer primary key, topic_id integer)`, t1, `insert into messages values(1,1)`),
+			"null-values":           mk(`create table topics(id integer primary key, name text, type text, serialization_format text, offered_qos_profiles text)`, `create table messages(id integer primary key, topic_id integer, timestamp integer, data blob)`, `insert into topics values(1,NULL,NULL,NULL,NULL)`, `insert into messages values(1,1,NULL,NULL)`),
+			"wrong-kinds":           mk(`create table topics(id, name, type, serialization_format, offered_qos_profiles)`, `create table messages(id, topic_id, timestamp, data)`, `insert into topics values('one',7,x'00ff',3.5,9)`, `insert into messages values('x','one','soon',42)`),
+			"dangling-topic":        mk(topics, msgs, t1, `insert into messages(topic_id,timestamp,data) values(99,5,x'01')`),
+			"negative-time":         mk(topics, msgs, t1, `insert into messages(topic_id,timestamp,data) values(1,-5,x'01')`),
+			"huge-topic-id":         mk(topics, msgs, `insert into topics values(70000,'/t','pkg_a/msg/Simple','cdr','')`, `insert into messages(topic_id,timestamp,data) values(70000,5,x'01')`),
+			"unknown-package":       mk(topics, msgs, `insert into topics values(1,'/t','nowhere/msg/Thing','cdr','')`, m1),
+			"unknown-type":          mk(topics, msgs, `insert into topics values(1,'/t','pkg_a/msg/Missing','cdr','')`, m1),
+			"type-no-slashes":       mk(topics, msgs, `insert into topics values(1,'/t','Simple','cdr','')`, m1),
+			"type-two-parts":        mk(topics, msgs, `insert into topics values(1,'/t','pkg_a/Simple','cdr','')`, m1),
+			"type-empty":            mk(topics, msgs, `insert into topics values(1,'/t','','cdr','')`, m1),
+			"type-trailing":         mk(topics, msgs, `insert into topics values(1,'/t','pkg_a/msg/','cdr','')`, m1),
+			"type-dots":             mk(topics, msgs, `insert into topics values(1,'/t','../../etc/msg/passwd','cdr','')`, m1),
+			"duplicate-topic-names": mk(topics, msgs, t1, `insert into topics values(2,'/t','pkg_a/msg/Leaf','cdr','')`, m1, `insert into messages(topic_id,timestamp,data) values(2,5,x'01')`),
+		}
+		var dn []string
+		for k := range dbs {
+			dn = append(dn, k)
+		}
+		sort.Strings(dn)
+		dbCasesPath := filepath.Join(*dir, "dbcases.ndjson")
+		df, err := os.Create(dbCasesPath)
+		if err != nil {
+			return err
+		}
+		dw := bufio.NewWriterSize(df, 1<<20)
+		var dkinds []string
+		demit := func(kind string, data []byte) {
+			c := hcase{I: len(dkinds), EP: "db3", Data: data, Base: "db3", Rec: "-", Fld: kind, Mag: "-", Kind: kind}
+			b, _ := json.Marshal(c)
+			dw.Write(b)
+			dw.WriteByte('\n')
+			dkinds = append(dkinds, kind)
+		}
+		for _, k := range dn {
+			demit(k, dbs[k])
+		}
+		for cut := 0; cut < len(good); cut += 1 + len(good)/64 { // a valid database cut short
+			demit("truncated", good[:cut])
+		}
+		for k := 0; k < 60; k++ { // ... and with a few bytes overwritten (header, schema page, b-tree cells)
+			mut := append([]byte{}, good...)
+			for j := 0; j < 1+r.Intn(4); j++ {
+				mut[r.Intn(len(mut))] = byte(r.Intn(256))
+			}
+			demit("mutated", mut)
+		}
+		dw.Flush()
+		df.Close()
+		douts := runCases(dbCasesPath, len(dkinds), *dir, 4)
+		dtr := wl.NewTrace()
+		dtr.Add(wl.Ev{"ev": "Run", "id": "dbcases", "cfg": map[string]any{"external": "cases"}, "lib": wl.Blob(""), "csizes": []any{}})
+		for i, k := range dkinds {
+			oc := douts[i]
+			if oc == nil {
+				oc = &houtcome{Class: "missing"}
+			}
+			dtr.Add(wl.Ev{"ev": "BagCase", "i": i, "kind": "db3-" + k, "class": oc.Class, "allocKiB": oc.AllocKiB, "ms": oc.Ms, "where": oc.Where})
+		}
+		dtr.Add(wl.Ev{"ev": "End"})
+		if err := o.emit(dtr); err != nil {
+			return err
+		}
+	}
 	casesASGiB = 24
 	casesDeadline = "60s"                                // multi-GiB buffers requested and zeroed: 5-15 s of CPU per input when the machine is busy
 	outcomes := runCases(casesPath, len(kinds), *dir, 3) // hostile lengths make the converter request multi-GiB buffers: few workers at a time
